@@ -16,8 +16,10 @@ package main
 
 import (
 	"encoding/json"
+	"flag"
 	"fmt"
 	"math"
+	"strconv"
 	"strings"
 
 	"github.com/peterstace/simplefeatures/geom"
@@ -38,8 +40,9 @@ var allKinds = []lib.Kind{lib.KPoint, lib.KLine, lib.KPoly, lib.KMPoint, lib.KML
 func caseReverse(r *lib.Rng, st *genStats) []string {
 	n := genGeom(r, allKinds, 3, st)
 	g := n.Build()
-	rv := g.Reverse()
-	return []string{"REV", kindNames[n.Kind], lib.Dump(g), lib.Dump(rv), lib.Dump(rv.Reverse()),
+	typed := r.Bool()
+	rv := opReverse(g, typed)
+	return []string{"REV", kindNames[n.Kind] + apiTag(typed), lib.Dump(g), lib.Dump(rv), lib.Dump(opReverse(rv, typed)),
 		b2s(g.Validate() == nil), b2s(rv.Validate() == nil)}
 }
 
@@ -66,7 +69,11 @@ func genSnap(r *lib.Rng) (class string, x float64, dp int) {
 		dp = r.Range(-3, 6)
 		den := []float64{1, 2, 4, 8, 10, 16, 100, 1000, 3, 7}[r.Intn(10)]
 		return "decimal", sgn() * float64(r.Range(0, 200000)) / den, dp
-	case 1: // exact ties for negative places: 25 at -1, 1500 at -3 ...
+	case 1: // exact ties: 25 at -1, 1500 at -3 ...; (2m+1)/2^(dp+1) at dp >= 0 (0.5 at 0, 0.125 at 2 ...)
+		if r.Bool() {
+			dp = r.Range(0, 6)
+			return "tie_pos", sgn() * float64(2*r.Range(0, 400)+1) / math.Exp2(float64(dp+1)), dp
+		}
 		dp = -r.Range(1, 6)
 		return "tie_neg", sgn() * (float64(r.Range(0, 400)) + 0.5) * math.Pow10(-dp), dp
 	case 2: // idempotence domain |x| * 10^dp < 2^40
@@ -118,17 +125,17 @@ func caseSnap(r *lib.Rng, st *genStats) []string {
 	return []string{"SNAP", class, fmt.Sprintf("%d", dp), hexf(x), hexf(y), hexf(yneg), hexf(yy)}
 }
 
-
 var arealKinds = []lib.Kind{lib.KPoly, lib.KPoly, lib.KMPoly, lib.KMPoly, lib.KColl, lib.KLine, lib.KPoint}
 var linealArealKinds = []lib.Kind{lib.KLine, lib.KLine, lib.KPoly, lib.KPoly, lib.KMLine, lib.KMPoly, lib.KColl}
 
 func caseForce(r *lib.Rng, st *genStats) []string {
 	n := genGeom(r, arealKinds, 3, st)
 	g := n.Build()
-	cw, ccw := g.ForceCW(), g.ForceCCW()
-	return []string{"FORCE", kindNames[n.Kind], lib.Dump(g), lib.Dump(cw), lib.Dump(ccw),
-		b2s(g.IsCW()), b2s(g.IsCCW()), b2s(cw.IsCW()), b2s(ccw.IsCCW()),
-		lib.Dump(cw.ForceCW()), lib.Dump(ccw.ForceCCW())}
+	typed := r.Bool()
+	cw, ccw := opForce(g, true, typed), opForce(g, false, typed)
+	return []string{"FORCE", kindNames[n.Kind] + apiTag(typed), lib.Dump(g), lib.Dump(cw), lib.Dump(ccw),
+		b2s(opIs(g, true, typed)), b2s(opIs(g, false, typed)), b2s(opIs(cw, true, typed)), b2s(opIs(ccw, false, typed)),
+		lib.Dump(opForce(cw, true, typed)), lib.Dump(opForce(ccw, false, typed))}
 }
 
 // guarded runs f and reports a panic as the string PANIC
@@ -221,8 +228,9 @@ func caseDensify(r *lib.Rng, st *genStats) []string {
 			class = "range_capped"
 		}
 	}
-	out := guarded(func() string { return lib.Dump(g.Densify(d)) })
-	return []string{"DENS", class + "/" + kindNames[n.Kind], lib.Dump(g), hexf(d), out}
+	typed := r.Bool()
+	out := guarded(func() string { return lib.Dump(opDensify(g, d, typed)) })
+	return []string{"DENS", class + "/" + kindNames[n.Kind] + apiTag(typed), lib.Dump(g), hexf(d), out}
 }
 
 // perpendicular distances of interior vertices from the chord of each line (tie thresholds)
@@ -274,9 +282,9 @@ func chordDistances(g geom.Geometry) []float64 {
 	return out
 }
 
-func caseSimplify(r *lib.Rng, st *genStats) []string {
-	n := genGeom(r, linealArealKinds, 3, st)
-	g := n.Build()
+// pickThreshold draws t from the classes of the quantifier: 0, the diameter, an exact
+// vertex-to-chord distance (tie), round values, uniform in [0, diameter].
+func pickThreshold(r *lib.Rng, g geom.Geometry) (string, float64) {
 	diam := diameter(g)
 	var t float64
 	class := "range"
@@ -300,22 +308,45 @@ func caseSimplify(r *lib.Rng, st *genStats) []string {
 			t /= 8
 		}
 	}
-	nv, _ := g.Simplify(t, geom.NoValidate{})
-	v, err := g.Simplify(t)
+	return class, t
+}
+
+func caseSimplify(r *lib.Rng, st *genStats) []string {
+	n := genGeom(r, linealArealKinds, 3, st)
+	g := n.Build()
+	class, t := pickThreshold(r, g)
+	if r.Chance(1, 6) {
+		// targeted class: search for an areal input whose simplification fails validation (the
+		// error branch of the gate); the first hit of at most 400 draws is used
+		for try := 0; try < 400; try++ {
+			n2 := genGeom(r, []lib.Kind{lib.KPoly, lib.KMPoly, lib.KColl}, 2, st)
+			g2 := n2.Build()
+			_, t2 := pickThreshold(r, g2)
+			if _, err := g2.Simplify(t2); err != nil {
+				n, g, t, class = n2, g2, t2, "gate_error_search"
+				st.GateHits++
+				break
+			}
+		}
+	}
+	return simplifyCase(r, n, g, class, t)
+}
+
+func simplifyCase(r *lib.Rng, n *lib.Node, g geom.Geometry, class string, t float64) []string {
+	typed := r.Bool()
+	nv, _ := opSimplify(g, t, typed, geom.NoValidate{})
+	v, err := opSimplify(g, t, typed)
 	res, same := "OK", "1"
 	if err != nil {
 		res, same = "ERR", "-"
 	} else if lib.Dump(v) != lib.Dump(nv) {
 		same = "0"
 	}
-	return []string{"SIMP", class + "/" + kindNames[n.Kind], lib.Dump(g), hexf(t), lib.Dump(nv), res, b2s(nv.Validate() == nil), same}
+	return []string{"SIMP", class + "/" + kindNames[n.Kind] + apiTag(typed), lib.Dump(g), hexf(t), lib.Dump(nv), res, b2s(nv.Validate() == nil), same}
 }
 
 func genInterpLine(r *lib.Rng, st *genStats) *lib.Node {
-	for {
-		n := genGeom(r, []lib.Kind{lib.KLine}, 1, st)
-		return n
-	}
+	return genGeom(r, []lib.Kind{lib.KLine}, 1, st)
 }
 
 func breakFracs(ls geom.LineString) []float64 {
@@ -371,15 +402,24 @@ func caseInterp(r *lib.Rng, st *genStats) []string {
 	return []string{"INTP", class, lib.Dump(ls.AsGeometry()), hexf(f), out}
 }
 
+var evenCount int
+
 func caseEven(r *lib.Rng, st *genStats) []string {
 	n := genInterpLine(r, st)
 	ls := n.Build().MustAsLineString()
-	k := r.Range(-2, 50)
-	if r.Chance(2, 3) {
-		k = r.Range(-1, 6)
+	// n <= 0, n = 1 (midpoint) and n = 2 (both ends) are separate branches of the code: always present
+	var k int
+	evenCount++
+	switch evenCount % 4 {
+	case 0, 2:
+		k = []int{1, 2, 0, 1, -1, 3, 1, 2, -2, 4}[(evenCount/2)%10]
+	case 1:
+		k = r.Range(5, 12)
+	default:
+		k = r.Range(13, 50)
 	}
 	out := guarded(func() string { return lib.Dump(ls.InterpolateEvenlySpacedPoints(k).AsGeometry()) })
-	return []string{"EVEN", "n", lib.Dump(ls.AsGeometry()), fmt.Sprintf("%d", k), out}
+	return []string{"EVEN", fmt.Sprintf("n%d", minInt(k, 3)), lib.Dump(ls.AsGeometry()), fmt.Sprintf("%d", k), out}
 }
 
 func caseSnapGeom(r *lib.Rng, st *genStats) []string {
@@ -399,7 +439,15 @@ func caseSnapGeom(r *lib.Rng, st *genStats) []string {
 	scale(n)
 	g := n.Build()
 	dp := r.Range(-3, 5)
-	return []string{"SNAPG", kindNames[n.Kind], lib.Dump(g), fmt.Sprintf("%d", dp), lib.Dump(g.SnapToGrid(dp))}
+	typed := r.Bool()
+	return []string{"SNAPG", kindNames[n.Kind] + apiTag(typed), lib.Dump(g), fmt.Sprintf("%d", dp), lib.Dump(opSnap(g, dp, typed))}
+}
+
+func minInt(a, b int) int {
+	if a < b {
+		return a
+	}
+	return b
 }
 
 type opGen struct {
@@ -408,8 +456,94 @@ type opGen struct {
 	fn     func(*lib.Rng, *genStats) []string
 }
 
+// coqFloat renders a binary64 value as a Coq primitive-float term (exact: hexadecimal literal).
+func coqFloat(x float64) string {
+	switch {
+	case math.IsNaN(x):
+		return "nan"
+	case math.IsInf(x, 1):
+		return "infinity"
+	case math.IsInf(x, -1):
+		return "neg_infinity"
+	}
+	s := strconv.FormatFloat(math.Abs(x), 'x', -1, 64)
+	if math.Signbit(x) {
+		return "(-" + s + ")"
+	}
+	return s
+}
+
+// snapV writes the scalar SnapToGrid observations as a Coq file: the list of (places, input,
+// observed output) and one vm_compute of the binary64 model's disagreements (float path).
+func snapV(a lib.Args) {
+	w, done := a.Output()
+	defer done()
+	root := lib.NewRng(a.Seed ^ 0x5a17)
+	type obs struct {
+		dp   int
+		x, y float64
+	}
+	var all []obs
+	add := func(x float64, dp int) {
+		y, yneg := snapXY(x, -x, dp)
+		all = append(all, obs{dp, x, y}, obs{dp, -x, yneg})
+	}
+	for _, c := range [][2]float64{{-1e300, 10}, {1e300, 10}, {0, 320}, {-1e300, 320}, {2.5, 0}, {0.125, 2}, {25, -1}, {0.285, 2}, {1.005, 2}} {
+		add(c[0], int(c[1]))
+	}
+	classes := map[string]int{}
+	for i := 0; i < a.N; i++ {
+		r := root.Fork()
+		class, x, dp := genSnap(r)
+		if dp > 320 {
+			dp = 320
+		}
+		if dp < -320 {
+			dp = -320
+		}
+		classes[class]++
+		add(x, dp)
+	}
+	fmt.Fprintln(w, "(* generated by harness/cmd/c17 -mode snapv: observations of geom.Point.SnapToGrid *)")
+	fmt.Fprintln(w, "From Coq Require Import Floats ZArith List.")
+	fmt.Fprintln(w, "From SF Require Import Model.TrSnapFloat.")
+	fmt.Fprintln(w, "Import ListNotations.")
+	fmt.Fprintln(w, "Open Scope float_scope.")
+	// shards of 1000 observations: one definition and one evaluation each (a single list literal
+	// of tens of thousands of entries overflows the parser's stack)
+	const shard = 1000
+	for k := 0; k*shard < len(all); k++ {
+		lo, hi := k*shard, (k+1)*shard
+		if hi > len(all) {
+			hi = len(all)
+		}
+		fmt.Fprintf(w, "Definition cases_%d : list (Z * (float * float)) := [\n", k)
+		for i := lo; i < hi; i++ {
+			sep := ";"
+			if i == hi-1 {
+				sep = ""
+			}
+			o := all[i]
+			fmt.Fprintf(w, "  ((%d)%%Z, (%s, %s))%s\n", o.dp, coqFloat(o.x), coqFloat(o.y), sep)
+		}
+		fmt.Fprintln(w, "].")
+		fmt.Fprintf(w, "Eval vm_compute in (length cases_%d, snapf_mismatches true %d%%Z cases_%d).\n", k, lo, k)
+	}
+	js, _ := json.Marshal(map[string]interface{}{"snap_float_classes": classes, "observations": len(all)})
+	fmt.Fprintf(w, "(* #GEN\t%s *)\n", js)
+	// the observations again, as a comment, for the failure report
+	for i, o := range all {
+		fmt.Fprintf(w, "(* OBS %d dp=%d x=%s y=%s *)\n", i, o.dp, hexf(o.x), hexf(o.y))
+	}
+}
+
 func main() {
+	mode := flag.String("mode", "cases", "cases | snapv (Coq file for the binary64 SnapToGrid model)")
 	a := lib.ParseArgs()
+	if *mode == "snapv" {
+		snapV(a)
+		return
+	}
 	w, done := a.Output()
 	defer done()
 	root := lib.NewRng(a.Seed)
@@ -424,7 +558,7 @@ func main() {
 		{"DENS", 3, caseDensify},
 		{"SIMP", 4, caseSimplify},
 		{"INTP", 3, caseInterp},
-		{"EVEN", 1, caseEven},
+		{"EVEN", 2, caseEven},
 		{"SNAPG", 2, caseSnapGeom},
 	}
 	total := 0
@@ -454,7 +588,7 @@ func main() {
 	}
 	js, _ := json.Marshal(map[string]interface{}{"ops": st.Ops, "kinds": st.Kinds, "ctypes": st.CTs,
 		"lattice": st.Lattice, "general_position_floats": st.Floats, "with_repeated_vertices": st.Dups,
-		"closed_lines": st.Closed, "polygons_with_hole": st.Holes, "rejected_candidates": st.Rejected,
+		"closed_lines": st.Closed, "polygons_with_hole": st.Holes, "t_shaped_polygons_with_hole_in_stem": st.Bumps, "concave_shell_fat_hole": st.Gate, "simplify_error_search_hits": st.GateHits, "rejected_candidates": st.Rejected,
 		"empty_members": st.EmptyMem})
 	fmt.Fprintf(w, "#GEN\t%s\n", js)
 }
